@@ -79,7 +79,10 @@ func vfC04(w *vfWorld) {
 	pp := cfg.ProxyPrefix
 
 	// ---- token factory ----
-	type ident struct{ email, user, pu string; groups []string }
+	type ident struct {
+		email, user, pu string
+		groups          []string
+	}
 	var cur *vfC04Token
 	var curIdent *ident
 	build := func(claims map[string]interface{}, so *vfSignOpt) {
